@@ -1,10 +1,16 @@
 import Driver.Codec
+import TakVerif.Impl.Alloc
 namespace Driver
 open Tak
 
 /-- driver state: the Zobrist basis sent by the harness; per-module session state is added by the modules -/
 structure St where
   basis : Array W := Array.replicate 64 0#64
+  -- C09 session: heap-side and pure-side interpreter states (`Tak.HState.step` / `Tak.PState.step`, the very
+  -- functions `C09.heap_refines_pure` is about) and the harness' slot -> handle table
+  hs : Tak.HState := {}
+  ps : Tak.PState := #[]
+  slots : Array (Option Nat) := Array.replicate 16 none
 deriving Inhabited
 
 /-- a handler returns `none` when the op is not its own -/
